@@ -110,6 +110,9 @@ func candidates(sc *Scenario) []func() *Scenario {
 		add(func(c *Scenario) bool { c.Setup = append(c.Setup[:i], c.Setup[i+1:]...); return true })
 	}
 	for vi := range sc.Variants {
+		if sc.Kind == "compare-recovery" {
+			break // every variant is "victim run, then recovery": without the recovery the comparison is void
+		}
 		for i := len(sc.Variants[vi].Ops) - 1; i >= 0; i-- {
 			vi, i := vi, i
 			if len(sc.Variants[vi].Ops) <= 1 {
